@@ -487,4 +487,18 @@ MUTANTS += [
      "desc": "Spinlock::lock() takes the flag with a relaxed exchange (no acquire: the protected data is read without happens-before)",
      "old": "while (_flag.exchange(State::Locked, std::memory_order_acquire) == State::Locked);",
      "new": "while (_flag.exchange(State::Locked, std::memory_order_relaxed) == State::Locked);"},
+    # ---------------- formatter sharing between loggers ----------------
+    {"id": "c12-options-eq-ignores-timezone", "props": ["C12"], "file": "quill/core/PatternFormatterOptions.h",
+     "desc": "PatternFormatterOptions::operator== ignores timestamp_timezone (a second logger adopts the first one's formatter)",
+     "old": "      timestamp_timezone == other.timestamp_timezone &&\n",
+     "new": ""},
+    {"id": "c12-options-eq-compares-pattern-length", "props": ["C12", "C03", "C17"], "file": "quill/core/PatternFormatterOptions.h",
+     "desc": "operator== compares only the length of format_pattern",
+     "old": "return format_pattern == other.format_pattern &&",
+     "new": "return format_pattern.size() == other.format_pattern.size() &&"},
+    {"id": "c17-formatter-adopted-without-comparison", "props": ["C17", "C03"], "file": "quill/backend/BackendWorker.h",
+     "desc": "a new logger adopts the first existing formatter without comparing the options",
+     "old": """          if (logger->pattern_formatter &&
+              (logger->pattern_formatter->get_options() == transit_event.logger_base->pattern_formatter_options))""",
+     "new": """          if (logger->pattern_formatter)"""},
 ]
